@@ -515,7 +515,7 @@ mut("05-decrypt-truncates-first", "C05", "decrypt:validates-what-it-was-given", 
 mut("12-temp-file-in-tmpdir", "C12", "temp-file-beside-the-target", ("internal/session/file.go", "	return ioutil.WriteFile(l.path, data, 0600)\n", "	tmp, err := ioutil.TempFile(os.TempDir(), \"session.*\")\n	if err != nil {\n		return err\n	}\n	if _, err = tmp.Write(data); err == nil {\n		err = tmp.Close()\n	}\n	if err != nil {\n		return err\n	}\n	return os.Rename(tmp.Name(), l.path)\n"))
 mut("12N-write-aside-and-rename", "C12", None, ("internal/session/file.go", "	return ioutil.WriteFile(l.path, data, 0600)\n", "	tmp, err := ioutil.TempFile(dir, filepath.Base(l.path)+\".*\")\n	if err != nil {\n		return err\n	}\n	defer os.Remove(tmp.Name())\n	if _, err = tmp.Write(data); err == nil {\n		err = tmp.Close()\n	}\n	if err != nil {\n		return err\n	}\n	return os.Rename(tmp.Name(), l.path)\n"))
 mut("11N-write-aside-and-rename", "C11", None, ("internal/session/file.go", "	return ioutil.WriteFile(l.path, data, 0600)\n", "	tmp, err := ioutil.TempFile(dir, filepath.Base(l.path)+\".*\")\n	if err != nil {\n		return err\n	}\n	defer os.Remove(tmp.Name())\n	if _, err = tmp.Write(data); err == nil {\n		err = tmp.Close()\n	}\n	if err != nil {\n		return err\n	}\n	return os.Rename(tmp.Name(), l.path)\n"))
-mut("15N-depth-given-back-by-hand", "C15", None, (DEC, "	d.depth++\n	defer func() { d.depth-- }()\n	if d.depth > maxNesting {\n		d.err = fmt.Errorf(\"values are nested deeper than %v levels\", maxNesting)\n		return\n	}\n", "	d.depth++\n	if d.depth > maxNesting {\n		d.err = fmt.Errorf(\"values are nested deeper than %v levels\", maxNesting)\n		return\n	}\n	d.decodeValueCounted(value)\n	d.depth--\n}\n\nfunc (d *Decoder) decodeValueCounted(value reflect.Value) {\n"))
+mut("15N-depth-given-back-by-deferred-method", "C15", None, (DEC, "	d.depth++\n	defer func() { d.depth-- }()\n", "	d.depth++\n	defer d.leave()\n"), (DEC, "func (d *Decoder) decodeValue(value reflect.Value) {\n", "func (d *Decoder) leave() { d.depth-- }\n\nfunc (d *Decoder) decodeValue(value reflect.Value) {\n"))
 
 mut("15-string-allocated-unchecked", "C15", "PopMessage/make", ("internal/encoding/tl/cursor_r.go", "	if realSize > d.buf.Len() {\n		d.err = fmt.Errorf(\"message of %v bytes can't fit in %v bytes left\", realSize, d.buf.Len())\n		return nil\n	}\n", ""))
 mut("20-bracketed-host-accepted", "C20", "address-literals-refused", ("telegram/deeplinks/resolver.go", "	if strings.HasPrefix(u.Host, \"[\") {\n		return nil, fmt.Errorf(\"'%v' is an address literal, not a hostname owned by telegram\", u.Host)\n	}\n", ""))
